@@ -182,11 +182,17 @@ def check_csv(case, ctx):
         # expected rows
         exp = []
         prev = None
+        cur = None
         for r in records:
             keys = selected(r, case["fields"], case["exclude"])
             if prev is None or prev != r._desc:
                 exp.append(list(keys))
                 prev = r._desc
+                cur = list(keys)
+            elif set(keys) == set(cur):
+                # same record type, no new header: the row follows the columns of the header in force (a grouped
+                # record and a plain record of an equal flat type list the same keys in different orders)
+                keys = cur
             exp.append(["" if getattr(r, k) is None else str(getattr(r, k)) for k in keys])
         with open(p, newline="", encoding="utf-8", errors="surrogateescape") as f:
             got = list(csv.reader(f))
